@@ -1,13 +1,12 @@
-(** Faithful model of invoke/loader.py: FilesystemLoader.find (upward walk
-    over the prefixes of the start path) and Loader.load (parent rule), over
-    an abstract file system.
+(** Faithful model of invoke/loader.py (as of a51b5ff): FilesystemLoader.find
+    (upward walk over the prefixes of os.path.abspath(start), the root
+    included) and Loader.load (parent rule), over an abstract file system.
 
     OS contract (assumed, see trusted base): [os.listdir p] answers with the
     listing recorded under the very string [p] or raises FileNotFoundError;
-    [os.path.exists p] is membership in [fs_files]; [os.listdir ""] raises
-    FileNotFoundError (Linux).  Paths are made of "/"-separated components
-    without "." / ".." / empty components (except a leading or one trailing
-    separator); Path() normalisation beyond that is not modelled. *)
+    [os.path.exists p] is membership in [fs_files]; [os.path.abspath] is the
+    lexical normalisation [abs_comps] against the working directory (no
+    symlink resolution; a leading "//" is not modelled). *)
 From InvokeVerif Require Export Common.FsTypes.
 
 Definition sep : ascii := "/"%char.
@@ -29,29 +28,37 @@ Definition path_join (a b : string) : string :=
     (spec.parent non-empty), or nothing, or CollectionNotFound. *)
 Inductive find_res :=
 | FSpec (origin : string) (is_pkg : bool)
-| FNone
+| FNone                         (* find returned None: no longer reachable since a51b5ff *)
 | FNotFound.
 
-(** The loop [for x in reversed(range(len(paths) + 1))], from [x] downwards. *)
+(** os.path.abspath(start) *)
+Definition abspath (cwd p : string) : string := dir_str (abs_comps cwd p).
+
+(** The loop [for x in reversed(range(1, len(paths) + 1))], from [x] downwards;
+    [path = os.sep.join(paths[0:x]) or os.sep].  A directory that cannot be
+    listed ends the search (FileNotFoundError is caught, then
+    CollectionNotFound is raised), as does running out of prefixes. *)
 Fixpoint walk (fs : fsys) (name : string) (paths : list string) (x : nat) : find_res :=
-  let path := join "/" (firstn x paths) in
-  let module := (name ++ ".py")%string in
-  match listdir fs path with
-  | None => FNotFound            (* FileNotFoundError -> CollectionNotFound *)
-  | Some entries =>
-      if mem module entries then FSpec (path_join path module) false
-      else if mem name entries &&
-              path_exists fs (path_join (path_join path name) "__init__.py")
-      then FSpec (path_join (path_join path name) "__init__.py") true
-      else match x with
-           | O => FNone
-           | S x' => walk fs name paths x'
-           end
+  match x with
+  | O => FNotFound
+  | S x' =>
+      let j := join "/" (firstn x paths) in
+      let path := if String.eqb j "" then "/" else j in
+      let module := (name ++ ".py")%string in
+      match listdir fs path with
+      | None => FNotFound
+      | Some entries =>
+          if mem module entries then FSpec (path_join path module) false
+          else if mem name entries &&
+                  path_exists fs (path_join (path_join path name) "__init__.py")
+          then FSpec (path_join (path_join path name) "__init__.py") true
+          else walk fs name paths x'
+      end
   end.
 
-(** FilesystemLoader.find *)
-Definition find (fs : fsys) (name start : string) : find_res :=
-  let paths := split_char sep start in
+(** FilesystemLoader.find (in a process whose working directory is [cwd]) *)
+Definition find (fs : fsys) (cwd name start : string) : find_res :=
+  let paths := split_char sep (abspath cwd start) in
   walk fs name paths (List.length paths).
 
 (** str(Path(p).parent): pathlib drops "." components (it keeps ".."), then
@@ -75,7 +82,7 @@ Definition abs_location (cwd p : string) : string :=
 
 (** Loader.load, in a process whose working directory is [cwd] *)
 Definition load (fs : fsys) (cwd name start : string) : load_res :=
-  match find fs name start with
+  match find fs cwd name start with
   | FSpec location is_pkg =>
       let origin := abs_location cwd location in
       let enclosing := path_parent origin in
